@@ -451,7 +451,7 @@ func main() {
 		return
 	}
 
-	n := r.N(384, 20000)
+	n := r.N(1536, 20000)
 	nRandom := r.N(6, 12)
 	mine := 0
 	for i := 0; i < n; i++ {
